@@ -148,6 +148,47 @@ func checkC06(c *Ctx, r *Report) {
 	specialTypesRule(c, r)
 	kindRule(c, r)
 	crossSignRule(c, r)
+	exactStoreRule(c, r)
+}
+
+// exactStoreRule (R06f): numbers and booleans enter the config as the reflect accessor's own result
+// (or the value-preserving int64 -> uint64 conversion of a positive number): no formatting, parsing,
+// rounding or arithmetic on the way in.
+func exactStoreRule(c *Ctx, r *Report) {
+	r.Rule("R06f", "normalizeValue stores numbers and booleans exactly: the argument of newBool/newInt/newUint/newFloat is the reflect accessor's result on the value whose kind was dispatched on (or uint64 of a positive Int())", 5)
+	NV := c.Func("", "normalizeValue")
+	kt, _ := reflectKind(c)
+	wd := kindDispatchOn(NV, kt, nil)
+	if wd == nil {
+		r.add("R06f", c.FnName(NV), "kind switch", c.Pos(NV.Pos()), Undecided, true, "no kind switch in normalizeValue")
+		return
+	}
+	b := newNF(c)
+	if kc, ok := wd.Tag.(*ssa.Call); ok && len(kc.Call.Args) == 1 {
+		b.Role(kc.Call.Args[0], "V")
+	}
+	allowed := map[string][]string{
+		"newBool":  {"(reflect.Value).Bool($V)"},
+		"newInt":   {"(reflect.Value).Int($V)"},
+		"newUint":  {"(reflect.Value).Uint($V)", "convert<uint64>((reflect.Value).Int($V))"},
+		"newFloat": {"(reflect.Value).Float($V)"},
+	}
+	for _, ci := range CallsIn(NV, false) {
+		g := ci.Common().StaticCallee()
+		if g == nil || allowed[g.Name()] == nil || !c.InRepo(g) {
+			continue
+		}
+		args := ci.Common().Args
+		form := b.Of(args[len(args)-1]).String()
+		ok := false
+		for _, a := range allowed[g.Name()] {
+			if a == form {
+				ok = true
+			}
+		}
+		r.Analysed["numeric stores in normalizeValue"]++
+		r.Check(ok, "R06f", c.FnName(NV), "exact "+g.Name(), c.Pos(ci.Pos()), form, "the number stored is not the accessor's own result but "+form+": values can change on the way into the config (rounding, reformatting, truncation) and not come back")
+	}
 }
 
 // ---- R06a ------------------------------------------------------------------
